@@ -118,3 +118,150 @@ def selftest_corruption(traces):
             c["ret"]["sp"][0], c["ret"]["sp"][1] = c["ret"]["sp"][1], c["ret"]["sp"][0]
             return c
     return None
+
+
+# ------------------------------------------------------------------------------------------------
+# step-level traces of the pure-Python scans (hooks guarded by PYSPIKE_VERIF=1)
+def _num(v):
+    """hook values are integers on integer inputs: log them as ints, anything else as a string"""
+    f = float(v)
+    if f == int(f) and abs(f) < 2 ** 30:
+        return int(f)
+    return repr(f)
+
+
+def _rand_train(rnd, T, maxsp):
+    n = rnd.choice([0, 1, 1, 2, 3, 5, 8, 12, maxsp])
+    n = min(n, T + 1)
+    pts = sorted(rnd.sample(range(0, T + 1), n))
+    if pts and rnd.random() < 0.15:
+        pts[0] = 0
+    if pts and rnd.random() < 0.15:
+        pts[-1] = T
+    return sorted(set(pts))
+
+
+def scan_traces(kind, seed, count, T=60, maxsp=20):
+    """run the hooked python backend on random integer trains over [0, T]; returns (traces, raw results)"""
+    import impl
+    from impl import PB
+    from pyspike import _verif_hooks as vh
+    if not vh.ON:
+        raise MachineryError("hooks are off: PYSPIKE_VERIF=1 must be set before pyspike is imported")
+    rnd = random.Random(seed)
+    traces, raw = [], []
+    for k in range(count):
+        a = _rand_train(rnd, T, maxsp)
+        b = _rand_train(rnd, T, maxsp) if rnd.random() > 0.1 else list(a)
+        if rnd.random() < 0.2 and a:
+            b = sorted(set(b) | set(rnd.sample(a, max(1, len(a) // 2))))[:maxsp]     # shared spike times
+        mq = rnd.choice([0, 0, 2, 6, 10, 40, 100])
+        tq = rnd.choice([0, 0, 4, 8, 20])
+        ri = rnd.random() < 0.3
+        vh.drain()
+        A = np.array(a, dtype=float)
+        B = np.array(b, dtype=float)
+        ne = lambda s: np.array(s if len(s) else [0, T], dtype=float)      # get_spikes_non_empty
+        if kind == "isi":
+            x, y = PB.isi_distance_python(ne(a), ne(b), 0.0, float(T), mq / 4.0)
+            res = {"y": [float(v) for v in y]}
+            extra = {}
+        elif kind == "spike":
+            x, y1, y2 = PB.spike_distance_python(ne(a), ne(b), 0.0, float(T), mq / 4.0, ri)
+            res = {"y1": [float(v) for v in y1], "y2": [float(v) for v in y2]}
+            extra = {"ri": bool(ri)}
+        else:
+            x, c, mp = PB.coincidence_python(A, B, 0.0, float(T), tq / 4.0, mq / 4.0)
+            res = {}
+            extra = {"tq": tq, "c": [_num(v) for v in c], "mp": [_num(v) for v in mp]}
+        events = [{kk: (vv if kk == "e" else _num(vv)) for kk, vv in e.items()} for e in vh.drain()]
+        t = {"id": k, "a": a, "b": b, "mq": mq, "x": [_num(v) for v in x], "events": events, "nosteps": False}
+        t.update(extra)
+        traces.append(t)
+        raw.append(res)
+    return traces, raw
+
+
+TRACE_MODULES = {"isi": ("IsiTrace", ["Correct", "InRange", "CursorBounds", "NuPositive"],
+                         dict(MaxSp=1, MRTSQ="{0}", Trains="<- NoTrains")),
+                 "spike": ("SpikeTrace", ["Correct", "InRange", "ZeroAtShared", "MinDistIsGlobal", "CursorBounds"],
+                           dict(MaxSp=1, MRTSQ="{0}", RISet="{FALSE}", DevF9="FALSE", Trains="<- NoTrains")),
+                 "sync": ("SyncTrace", ["Correct", "OneToOneInv", "Mutual", "PartnerIsPrevious", "HitsAreCoinc", "TauBounded", "InRange"],
+                          dict(MaxSp=1, MRTSQ="{0}", TauQ="{0}", DevF1="FALSE", Trains="<- NoTrains"))}
+
+
+def _tlc_traces(ctx, kind, traces, T, what):
+    mod, invs, consts = TRACE_MODULES[kind]
+    d = scratch("pyspike_tr_")
+    try:
+        path = os.path.join(d, "traces.json")
+        with open(path, "w") as f:
+            json.dump(traces, f)
+        c = dict(consts)
+        c.update(TS=0, TE=T)
+        res = run_tlc(mod, c, invs + ["Verdict"], init="TInit", nxt="TNext", workers=16, timeout=900,
+                      env={"TRACE_FILE": path})
+        ctx.add_tlc(res, what)
+        if res.violated:
+            return None
+        out = {}
+        for v in res.exports:
+            if v.get("k") == "verdict":
+                # a trace is accepted iff its final state was reached un-rejected
+                if v["id"] not in out or not v["accepted"]:
+                    out[v["id"]] = v
+        return out
+    finally:
+        rmtree(d)
+
+
+def validate_scan(ctx, kind, seed, count, T=60, maxsp=20):
+    """record `count` hooked executions, validate them as behaviours of the scan specification,
+    compare the returned doubles with the exact values TLC prints on acceptance"""
+    from common import fr, close
+    traces, raw = scan_traces(kind, seed, count, T, maxsp)
+    verdicts = _tlc_traces(ctx, kind, traces, T, "%d recorded executions of the %s scan (T=%d, <= %d spikes) validated step by step" % (count, kind, T, maxsp))
+    if verdicts is None:
+        return
+    if len(verdicts) != len(traces):
+        raise MachineryError("trace validation: %d verdicts for %d traces" % (len(verdicts), len(traces)))
+    rejected = [t for t in traces if not verdicts[t["id"]]["accepted"]]
+    drift = 0
+    if rejected:
+        # hook drift rule: re-validate without step events; only a rejected RETURN (or value) is a violation
+        again = []
+        for t in rejected:
+            t2 = dict(t)
+            t2["events"] = [e for e in t["events"] if e["e"].endswith(".ret")]
+            t2["nosteps"] = True
+            again.append(t2)
+        v2 = _tlc_traces(ctx, kind, again, T, "re-validation of %d traces without step events" % len(again))
+        for t in rejected:
+            if v2 is not None and v2.get(t["id"], {}).get("accepted"):
+                drift += 1
+                verdicts[t["id"]] = v2[t["id"]]
+            else:
+                ctx.mismatch("trace_" + kind, {"trace": t},
+                             "%s scan: recorded execution a=%s b=%s mq=%s is not a behaviour of the specification "
+                             "(rejected at event %s: %s)" % (kind, t["a"], t["b"], t["mq"], verdicts[t["id"]]["at"],
+                                                             t["events"][min(verdicts[t["id"]]["at"], len(t["events"])) - 1]))
+    ctx.notes["hook_drift"] = ctx.notes.get("hook_drift", 0) + drift
+    for t, r in zip(traces, raw):
+        ctx.traces += 1
+        ctx.evaluations += 1
+        v = verdicts[t["id"]]
+        if not v["accepted"]:
+            continue
+        ctx.count_path("trace:%s:%s" % (kind, "/".join(v.get("path", []))[:200]))
+        for key in ("y", "y1", "y2"):
+            if key in r:
+                exp = [float(fr(q)) for q in v[key]]
+                if len(exp) != len(r[key]) or not all(close(g, e) for g, e in zip(r[key], exp)):
+                    ctx.mismatch("trace_" + kind, {"trace": t},
+                                 "%s scan: a=%s b=%s mq=%s: returned %s = %s, exact values on the validated trace %s" % (
+                                     kind, t["a"], t["b"], t["mq"], key, r[key], exp))
+                    break
+    if traces:
+        s = dict(traces[len(traces) // 2])
+        s["events"] = s["events"][:4] + ["..."]
+        ctx.sample(s, limit=8)
